@@ -1,4 +1,5 @@
 import RedoModel.Lemmas.Paths
+import RedoModel.Props.C15b
 
 /-!
 # C15 — Every spelling of a path denotes the same target
